@@ -222,6 +222,15 @@ def check_case(case, ctx):
         s0 = singles[0]
         tmax = case["nt"] * case["dt"]
         model = 2.0 * case["dt"] / (math.pi * c0["cortime"]) + math.exp(-tmax / c0["cortime"]) + 0.01
+        if fam == "sd":
+            with qr.energy_units("int"):
+                wax = numpy.array(s0.axis.data)
+            if numpy.any(wax == 0.0):
+                # the frequency axis contains zero exactly: J(w)/w is 0/0 there and has to be interpolated from the
+                # neighbours, which costs (x/pi) x^2/(1+x^2) of the integral, x = dw*tau_c, for a Lorentzian peak
+                x = abs(wax[1] - wax[0]) * c0["cortime"]
+                model += (x / math.pi) * x * x / (1.0 + x * x)
+                ctx.label("sd-axis-contains-zero")
         if model <= 0.2:
             ok, meas = guarded(ctx, "measure", lambda: s0.measure_reorganization_energy(), fam)
             if ok:
